@@ -328,6 +328,21 @@ async fn rust_op(ch: &rodbus::client::Channel, req: &ClientReq, unit: u8, timeou
     }
 }
 
+/// the largest (`max`) or smallest request of operation `k`
+fn boundary_req(k: usize, max: bool) -> ClientReq {
+    let n = |big: usize| if max { big } else { 1 };
+    match k % 8 {
+        0 => ClientReq::Read { kind: Kind::ReadCoils, start: 17, count: n(2000) as u16 },
+        1 => ClientReq::Read { kind: Kind::ReadDiscrete, start: 17, count: n(2000) as u16 },
+        2 => ClientReq::Read { kind: Kind::ReadHolding, start: 17, count: n(125) as u16 },
+        3 => ClientReq::Read { kind: Kind::ReadInput, start: 17, count: n(125) as u16 },
+        4 => ClientReq::WriteSingleCoil { addr: if max { 65535 } else { 0 }, value: max },
+        5 => ClientReq::WriteSingleReg { addr: if max { 65535 } else { 0 }, value: if max { 65535 } else { 0 } },
+        6 => ClientReq::WriteMultiCoils { start: 17, values: (0..n(1968)).map(|i| i % 3 == 0).collect() },
+        _ => ClientReq::WriteMultiRegs { start: 17, values: (0..n(123)).map(|i| (i as u16).wrapping_mul(977)).collect() },
+    }
+}
+
 fn gen_req(rng: &mut Rng, k: usize) -> ClientReq {
     match k % 8 {
         0 => ClientReq::Read { kind: Kind::ReadCoils, start: rng.u16() / 2, count: 1 + rng.below(2000) as u16 },
@@ -405,7 +420,10 @@ fn client_outcomes(rt: &Rt, trt: &tokio::runtime::Runtime, args: &Args, ev: &mut
             }
             modes.push(Mode::Silence);
             modes.push(Mode::Genuine);
-            let reqs: Vec<(ClientReq, u8, u64)> = modes.iter().map(|m| (gen_req(&mut rng, opk), rng.u8(), if *m == Mode::Silence { *rng.pick(&[120u64, 250]) } else { 2000 })).collect();
+            let mut reqs: Vec<(ClientReq, u8, u64)> = modes.iter().map(|m| (gen_req(&mut rng, opk), rng.u8(), if *m == Mode::Silence { *rng.pick(&[120u64, 250]) } else { 2000 })).collect();
+            // the two leading genuine exchanges carry the largest and the smallest request of the kind
+            reqs[0].0 = boundary_req(opk, true);
+            reqs[1].0 = boundary_req(opk, false);
 
             // ---- C ABI
             let peer = Peer::start();
